@@ -441,7 +441,10 @@ func ruleDupKey(rule string) RuleFn {
 			if fv := c.Fn(rule, "(*dig.Scope).findAndValidateResults"); fv != nil {
 				ok := false
 				an.Instrs(fv, func(in ssa.Instruction) {
-					if st, isSt := in.(*ssa.Store); isSt && strings.HasSuffix(an.Norm(st.Addr), "complit.s") && an.Norm(st.Val) == "p:s" {
+					if st, isSt := in.(*ssa.Store); isSt && strings.HasSuffix(an.Norm(st.Addr), ".s") && an.Norm(st.Val) == "p:s" {
+						if fa, ok := st.Addr.(*ssa.FieldAddr); !ok || !an.IsDigNamed(fa.X.Type(), "connectionVisitor") {
+							return
+						}
 						ok = true
 					}
 				})
@@ -450,7 +453,7 @@ func ruleDupKey(rule string) RuleFn {
 		}
 		// exclusion
 		if v := c.Fn(rule, "(*dig.provideOptions).Validate"); v != nil {
-			g := an.NewGates().AddEdges(an.EdgesWhere(v, an.FactIs("(len(p:o.Group) <= 0)", "(len(p:o.Name) <= 0)", "(p:o.Group == \"\")", "(p:o.Name == \"\")"))...)
+			g := an.NewGates().AddEdges(an.EdgesWhere(v, an.FactIs("(len(p:o.Group) == 0)", "(len(p:o.Name) == 0)", "(p:o.Group == \"\")", "(p:o.Name == \"\")"))...)
 			bad := false
 			an.Instrs(v, func(in ssa.Instruction) {
 				if r, ok := in.(*ssa.Return); ok && !isErrorExit(r) {
